@@ -20,6 +20,7 @@ def main():
     ap.add_argument("--replay", default=None)
     ap.add_argument("--list", action="store_true")
     ap.add_argument("--benign", action="store_true", help="apply the corpus of behaviour-preserving refactors; every check must stay at exit 0 (no false alarm)")
+    ap.add_argument("--patch", default=None, help="with --benign: only this patch of the corpus")
     ap.add_argument("--selftest", action="store_true", help="apply the mutant corpus of this property in a scratch copy; every mutant must fail the expected obligation")
     a = ap.parse_args()
     seed = int(os.environ.get("VERIF_SEED", "0") or 0)
@@ -33,7 +34,7 @@ def main():
     if a.replay:
         return replay(a.replay)
     if a.benign:
-        return benign(a.prop)
+        return benign(a.prop, a.patch)
     if not a.prop:
         ap.error("property id required")
     if a.selftest:
@@ -48,37 +49,53 @@ def main():
     return rc
 
 
-def benign(only_prop=None):
-    """behaviour-preserving refactors of /repo (benign/*.patch) must not raise any alarm: exit 0 required"""
+def benign(only_prop=None, only_patch=None, jobs=3):
+    """behaviour-preserving refactors of /repo (benign/*.patch) must not raise any alarm: exit 0 required.
+    props "all" in the index = every claimed property's quick check runs on the refactored tree."""
     import shutil
     import subprocess
     import tempfile
+    from concurrent.futures import ThreadPoolExecutor
 
     here = os.path.dirname(os.path.dirname(os.path.abspath(__file__)))
     idx = json.load(open(os.path.join(here, "benign", "index.json")))
-    bad = 0
-    for m in idx:
-        for prop in m["props"]:
-            if only_prop and prop != only_prop:
-                continue
-            scratch = tempfile.mkdtemp(prefix="fvc_benign_")
-            try:
-                shutil.copytree("/repo/flodym", os.path.join(scratch, "flodym"))
-                r = subprocess.run(["patch", "-p1", "-s", "-d", scratch, "-i", os.path.join(here, "benign", m["patch"])], capture_output=True, text=True)
-                if r.returncode != 0:
-                    print(f"BENIGN {m['patch']}: patch does not apply (skipped)")
-                    continue
+    claimed = sorted(c["property_id"] for c in json.load(open(os.path.join(here, "MANIFEST.json")))["checks"])
+    jobs = int(os.environ.get("FVC_BENIGN_JOBS", jobs))
+
+    def one(m):
+        out = []
+        bad = 0
+        props = claimed if m["props"] == "all" else m["props"]
+        props = [p for p in props if not only_prop or p == only_prop]
+        if not props:
+            return out, bad
+        scratch = tempfile.mkdtemp(prefix="fvc_benign_")
+        try:
+            shutil.copytree("/repo/flodym", os.path.join(scratch, "flodym"))
+            r = subprocess.run(["patch", "-p1", "-s", "-d", scratch, "-i", os.path.join(here, "benign", m["patch"])], capture_output=True, text=True)
+            if r.returncode != 0:
+                out.append(f"BENIGN {m['patch']}: patch does not apply (skipped)")
+                return out, bad
+            for prop in props:
                 env = dict(os.environ, FVC_REPO=scratch, FVC_EVIDENCE_DIR=os.path.join(scratch, "evidence"), FVC_REPLAY_DIR=os.path.join(scratch, "replays"))
                 r = subprocess.run([os.path.join(here, "check"), prop, "--tier", "quick"], capture_output=True, text=True, env=env)
-                last = r.stdout.strip().splitlines()[-1] if r.stdout.strip() else ""
                 notes = [l for l in r.stdout.splitlines() if l.startswith(("VIOLATION", "UNDECIDED", "CHECKER"))][:2]
-                print(f"BENIGN {m['patch']} / {prop}: exit={r.returncode} {'ok' if r.returncode == 0 else 'ALARM ' + ' | '.join(n[:160] for n in notes)}")
+                out.append(f"BENIGN {m['patch']} / {prop}: exit={r.returncode} {'ok' if r.returncode == 0 else 'ALARM ' + ' | '.join(n[:200] for n in notes)}")
                 if r.returncode != 0:
                     bad += 1
-            finally:
-                shutil.rmtree(scratch, ignore_errors=True)
-    print(f"BENIGN: {bad} alarms")
-    return 0 if bad == 0 else 3
+        finally:
+            shutil.rmtree(scratch, ignore_errors=True)
+        return out, bad
+
+    todo = [m for m in idx if not only_patch or m["patch"] == only_patch]
+    total = 0
+    with ThreadPoolExecutor(max_workers=jobs) as ex:
+        for out, bad in ex.map(one, todo):
+            for l in out:
+                print(l, flush=True)
+            total += bad
+    print(f"BENIGN: {total} alarms")
+    return 0 if total == 0 else 3
 
 
 def selftest(prop):
